@@ -93,3 +93,64 @@ def compare_with_definition(bars, cps, scale):
 
 def coord_scale(bars):
     return max([abs(x) for b in bars for x in b] + [1e-300])
+
+
+# ---------------------------------------------------------------------------------------
+# piecewise-linear functions as critical pairs (the form every landscape operation produces)
+
+@st.composite
+def pl_depth(draw, grid=None, min_pts=2, max_pts=7, signed=True):
+    """strictly increasing abscissae, first and last ordinate 0, interior ordinates of either sign,
+    flats, nearly flat segments and exact zeros; abscissae from a small lattice (so that different
+    functions share breakpoints) or free floats"""
+    n = draw(st.integers(min_pts, max_pts))
+    if grid is None:
+        grid = draw(st.sampled_from(["lattice", "lattice", "float"]))
+    if grid == "lattice":
+        xs = sorted(draw(st.lists(st.integers(-6, 12), min_size=n, max_size=n, unique=True)))
+        xs = [x / 2.0 for x in xs]
+    else:
+        # free floats, but at least 1e-6 apart (denormal spacings overflow any slope and are outside every realistic input)
+        xs = sorted(draw(st.lists(finite(-10, 10).map(lambda v: round(v, 6) + 0.0), min_size=n, max_size=n, unique=True)))
+    yv = st.one_of(st.integers(-4, 4).map(float), st.sampled_from([0.0, 1.0, 1.0, -1.0, 0.5]),
+                   st.sampled_from([1.0 + 1e-6, 1.0 - 1e-6, -1.0 + 1e-6]), finite(-5, 5).map(lambda v: 0.0 if abs(v) < 1e-3 else v))
+    if not signed:
+        yv = st.one_of(st.integers(0, 4).map(float), finite(0, 5).map(lambda v: 0.0 if abs(v) < 1e-3 else v))
+    ys = [0.0] + [draw(yv) for _ in range(n - 2)] + [0.0]
+    return [[x, y] for x, y in zip(xs, ys)]
+
+
+@st.composite
+def pl_function(draw, min_depths=1, max_depths=4, **kw):
+    k = draw(st.integers(min_depths, max_depths))
+    return [draw(pl_depth(**kw)) for _ in range(k)]
+
+
+def valid_pl(depths):
+    try:
+        for d in depths:
+            if len(d) < 2 or d[0][1] != 0 or d[-1][1] != 0:
+                return False
+            xs = [q[0] for q in d]
+            if any(not a < b for a, b in zip(xs, xs[1:])):
+                return False
+            if any(not (math.isfinite(q[0]) and math.isfinite(q[1])) for q in d):
+                return False
+        return len(depths) >= 1
+    except Exception:
+        return False
+
+
+def pl_features(depths):
+    labs = set()
+    for d in depths:
+        for (x0, y0), (x1, y1) in zip(d, d[1:]):
+            if (y0 < 0 < y1) or (y1 < 0 < y0):
+                labs.add("crossing")
+            if y0 == y1 and y0 != 0:
+                labs.add("flat")
+            if y0 != y1 and abs(abs(y0) - abs(y1)) < 1e-5 * max(abs(y0), abs(y1)):
+                labs.add("nearly_flat")
+            if min(y0, y1) < 0:
+                labs.add("negative")
+    return labs
